@@ -234,6 +234,51 @@ def run_case(case, workdir):
                     check_open(rec, sub, val, ref, desc, p, limit, header_only, maxmins, parsed)
                 except Exception as e:
                     rec.fail("attribute_access", sub, exc_text(e))
+    # history on ONE reader: the caller uses the reader's public read-only helpers (every one that needs no other plotfile:
+    # field_index, unique_box_shapes, box_points, the per-level generators, map_bfile_offsets, comparison with a second reader,
+    # a few selections) - what the reader exposes afterwards is still what the headers state
+    with vpool.controlled():
+        st, val = call(lambda: PlotfileCooker(path, maxmins=True))
+    if st != "exc":
+        def use(pck_):
+            other = PlotfileCooker(path, maxmins=True)
+            for nm_ in list(pck_.fields):
+                pck_.field_index(nm_)
+            pck_.unique_box_shapes()
+            for lv_ in range(nlev):
+                for b_ in range(len(ref.boxes[lv_])):
+                    for _rep in (0, 1):
+                        try:
+                            pck_.box_points(lv_, b_)
+                        except Exception:
+                            pass
+                for gen in (pck_.bybinfile, pck_.bybinfile_indexed, pck_.bybox):
+                    try:
+                        list(gen(lv_))
+                    except Exception:
+                        pass
+                try:
+                    list(pck_.byboxcompared(other, lv_))
+                except Exception:
+                    pass
+                try:
+                    pck_.map_bfile_offsets(lv_)
+                except Exception:
+                    pass
+                try:
+                    a_ = pck_[:][lv_][0]
+                    a_[...] = 0.0
+                except Exception:
+                    pass
+            pck_ == other
+        with vpool.controlled():
+            call(lambda: use(val))
+        sub = {"history": "public helpers of the reader used first", "limit_level": None, "header_only": False, "maxmins": True}
+        rec.exe([dh, "after_helpers"], nontrivial=True)
+        try:
+            check_open(rec, sub, val, ref, desc, path, None, False, True, parsed)
+        except Exception as e:
+            rec.fail("attribute_access", sub, exc_text(e))
     # the same plotfile named otherwise (trailing slash, ./x, relative to the working directory, via a symbolic link) and
     # the level limit given as a NumPy integer
     import numpy as np
